@@ -503,6 +503,110 @@ let predict_nest (f : string list) (obs : string) : string * string * bool =
       (pred, v, true)
   | _ -> ("unknown-case", "BAD:unknown-case", false)
 
+(* set cases: the user's settings (keys of the section besides type) through the real hooks, for
+   every constructor shape and requested form.  Model: run_case with the fill of parseConf
+   (hook_oracle, Model/RegistryDecode.v); verdict: settings_accepted_b decides between "error result,
+   nothing constructed" (C18_settings_rejected) and "products built from the default overlaid by the
+   settings" (C18_settings_new_config / C18_settings_factory_config). *)
+let predict_set (f : string list) (obs : string) : string * string * bool =
+  match f with
+  | ["set"; ret; cfg; cerr; def; rt; req; k; a; b; c; others] ->
+      let empty = (cfg = "E" || cfg = "Q") in
+      let sh = { sh_ret = (if ret = "P" then RPlugin else RFactory);
+                 sh_cfg = (match cfg with "N" -> NoCfg | "P" -> CPtr | _ -> CStruct);
+                 sh_cerr = bool_of_field cerr; sh_perr = false;
+                 sh_def = (if def = "-" then DefNone else DefVal);
+                 sh_rt = (if rt = "M" then TImpl else TIface); sh_named = false } in
+      let opt s = if s = "-" then None else Some (n_of_string s) in
+      let nother = if others = "-" then 0 else List.length (String.split_on_char ',' others) in
+      let u = { set_a = opt a; set_b = opt b; set_c = opt c; set_other = nat_of_int nother } in
+      let fl = decode_target sh empty in
+      let dflt n = let i = int_of_nat n in { va = n_of_int (100 + i); vb = n_of_int (200 + i); vc = n_of_int 0 } in
+      (* the validator: field a of Cfg carries max=1000 (defaults are valid) *)
+      let invalid = (fl = FldABC) && (a <> "-" && int_of_string a > 1000) in
+      let o0 = { o_dflt = dflt; o_fill = (fun _ v -> v); o_ffail = (fun _ -> invalid);
+                 o_cfail = (fun _ -> false); o_pfail = (fun _ -> false) } in
+      let o = hook_oracle fl u o0 in
+      let kk = int_of_string k in
+      let we = (req <> "F0") in
+      let cs = { cs_shape = sh; cs_req = (if req = "N" then ReqNew else ReqFactory (we, false)); cs_hf = true; cs_k = nat_of_int kk } in
+      let nofill = List.filter (function EvFill _ -> false | _ -> true) in
+      let strip = List.map (fun (e, out) -> (nofill e, out)) in
+      let pred = s_obs (canon_obs (match run_case cs o with
+                        | ObsNew calls -> ObsNew (strip calls)
+                        | ObsFactory (cev, e, calls) -> ObsFactory (nofill cev, e, strip calls)
+                        | x -> x)) in
+      let pred = Str.global_replace (Str.regexp "\\(err\\|panic\\):fill[0-9]+") "\\1:config" pred in
+      let accepted = settings_accepted_b fl u && not invalid in
+      let has_def = (def <> "-") && sh.sh_cfg <> NoCfg in
+      let defs evs = List.filter_map (function EvDefault n -> Some n | _ -> None) evs in
+      let ctors evs = List.filter_map (function EvCtor (c, a) -> Some (c, a) | _ -> None) evs in
+      let prods evs = List.filter_map (function EvProd (m, n) -> Some (m, n) | _ -> None) evs in
+      let base evs = (match defs evs with [n] when has_def -> Some (dflt n) | [] when not has_def -> Some vzero | _ -> None) in
+      let arg_ok a b =
+        (match sh.sh_cfg, a with
+         | NoCfg, ANone -> true
+         | CStruct, AVal v -> v = overlay fl u b
+         | CPtr, AConf cf -> cf.c_val = overlay fl u b
+         | _ -> false) in
+      (* a round that gets a config and calls the constructor *)
+      let round_ok evs =
+        (match base evs, ctors evs with
+         | Some b, [(c, a)] when arg_ok a b -> Some (c, a)
+         | _ -> None) in
+      let op_plugin (evs, out) =
+        (match out, round_ok evs with
+         | OOk p, Some (c, a) -> prods evs = [] && p.p_ctor = c && p.p_arg = a && p.p_prod = None
+         | _ -> false) in
+      let op_facnew (evs, out) =
+        (match out, round_ok evs, prods evs with
+         | OOk p, Some (c, a), [(m, n)] -> n = c && p.p_ctor = c && p.p_arg = a && p.p_prod = Some m
+         | _ -> false) in
+      let op_err routed (evs, out) =
+        (match out with OErr _ -> routed | OPanic _ -> not routed | _ -> false) && no_construction evs in
+      let distinct l = List.length (List.sort_uniq compare l) = List.length l in
+      let all_distinct (rounds : event list list) =
+        let evs = List.concat rounds in
+        distinct (List.map int_of_nat (defs evs)) &&
+        distinct (List.map (fun (c, _) -> int_of_nat c) (ctors evs)) &&
+        distinct (List.map (fun (m, _) -> int_of_nat m) (prods evs)) &&
+        distinct (List.filter_map (function (_, AConf cf) -> Some (int_of_nat cf.c_id) | _ -> None) (ctors evs)) in
+      let why = if accepted then "product not built from the registered default overlaid by the section's settings"
+                else if invalid then "an invalid configuration (default overlaid by the settings fails validation) did not reach the caller as the error"
+                else "settings with a key that names no field of the constructor's config (no config: any key) did not reach the caller as the error result with nothing constructed" in
+      let v =
+        (match p_obs (replace_all "panic:config" "panic:fill0" (replace_all "err:config" "err:fill0" obs)) with
+         | ObsNew calls when req = "N" ->
+             verdict (List.length calls = kk &&
+                      (if accepted then List.for_all (if sh.sh_ret = RPlugin then op_plugin else op_facnew) calls && all_distinct (List.map fst calls)
+                       else List.for_all (op_err true) calls)) why
+         | ObsFactory (cev, ce, calls) when req <> "N" ->
+             verdict
+               (if accepted then
+                  ce = None && List.length calls = kk &&
+                  (match sh.sh_ret with
+                   | RPlugin -> no_construction cev && List.for_all op_plugin calls && all_distinct (cev :: List.map fst calls)
+                   | RFactory ->
+                       (match round_ok cev with
+                        | Some (c, a) ->
+                            prods cev = [] &&
+                            List.for_all (fun (evs, out) ->
+                              match evs, out with
+                              | [EvProd (m, n)], OOk p -> n = c && p.p_ctor = c && p.p_arg = a && p.p_prod = Some m
+                              | _ -> false) calls &&
+                            all_distinct (List.map fst calls)
+                        | None -> false))
+                else
+                  no_construction cev &&
+                  (match ce with
+                   | Some _ -> calls = []
+                   (* a plugin constructor's config is decoded per call: reporting the error from every call is within the property *)
+                   | None -> sh.sh_ret = RPlugin && kk > 0 && List.length calls = kk && List.for_all (op_err we) calls)) why
+         | _ -> "BAD:unexpected-form"
+         | exception Unparsable what -> "BAD:outside-the-model(" ^ what ^ ")") in
+      (pred, v, true)
+  | _ -> ("unknown-case", "BAD:unknown-case", false)
+
 let predict (c : string) (obs : string) : string * string * bool =
   if String.length c > 5 && String.sub c 0 5 = "nest " then predict_nest (split_blank c) obs else
   if String.length c > 5 && String.sub c 0 5 = "hook " then predict_hook (split_blank c) obs else
@@ -511,6 +615,7 @@ let predict (c : string) (obs : string) : string * string * bool =
   if String.length c > 5 && String.sub c 0 5 = "conc " then predict_conc (split_blank c) obs else
   if String.length c > 4 && String.sub c 0 4 = "sec " then predict_sec (split_blank c) obs else
   if String.length c > 4 && String.sub c 0 4 = "reg " then predict_reg (split_blank c) obs else
+  if String.length c > 4 && String.sub c 0 4 = "set " then predict_set (split_blank c) obs else
   let (cs, o) = case_of (split_blank c) in
   let pred = s_obs (canon_obs (run_case cs o)) in
   let v =
